@@ -11,14 +11,14 @@ VARIABLES l, nbad
 Obs == ndJsonDeserialize("obs.ndjson")
 Init == l = 1 /\ nbad = 0
 Next == l <= Len(Obs) /\ l' = l + 1 /\ nbad' = nbad + (IF RecOk(Obs[l]) THEN 0 ELSE 1)
-BadIdx == SelectSeq([i \in 1..Len(Obs) |-> i], LAMBDA i : ~RecOk(Obs[i]))
+BadIdx(n) == SelectSeq([i \in 1..n |-> i], LAMBDA i : ~RecOk(Obs[i]))
 \* keep up to 6 records of every distinct signature, so that many records of a known cause cannot hide a new one
-RECURSIVE Keep(_, _, _)
-Keep(i, acc, seen) == IF i > Len(BadIdx) \/ Len(acc) >= 600 THEN acc
-                      ELSE LET s == Sig(Obs[BadIdx[i]])
+RECURSIVE Keep(_, _, _, _)
+Keep(B, i, acc, seen) == IF i > Len(B) \/ Len(acc) >= 600 THEN acc
+                      ELSE LET s == Sig(Obs[B[i]])
                                n == Len(SelectSeq(seen, LAMBDA x : x = s)) IN
-                           IF n >= 6 THEN Keep(i + 1, acc, seen)
-                           ELSE Keep(i + 1, Append(acc, [k |-> BadIdx[i], id |-> Obs[BadIdx[i]].id, sig |-> s, nbad |-> nbad]), Append(seen, s))
-Done == l = Len(Obs) + 1 => ndJsonSerialize("bad.ndjson", IF nbad = 0 THEN <<>> ELSE Keep(1, <<>>, <<>>))
+                           IF n >= 6 THEN Keep(B, i + 1, acc, seen)
+                           ELSE Keep(B, i + 1, Append(acc, [k |-> B[i], id |-> Obs[B[i]].id, sig |-> s, nbad |-> nbad]), Append(seen, s))
+Done == l = Len(Obs) + 1 => ndJsonSerialize("bad.ndjson", IF nbad = 0 THEN <<>> ELSE Keep(BadIdx(Len(Obs)), 1, <<>>, <<>>))
 Consumed == TLCGet("stats").diameter - 1 = Len(Obs)
 =============================================================================
